@@ -81,6 +81,8 @@ ASSUMPTIONS = [
     "signatures whose default/annotation text is cut by the colorizer (long generic-path expressions, marked `...`: C15 wrap_marked) or "
     "that fall back to `(...)` because html2stan rejects the HTML (U+00A0 -> &nbsp;: C09/C10 finding) are not generated; the oracle's "
     "unquoting keeps strings that are values (Literal arguments through any import alias, Annotated metadata)",
+    "a definition whose visit is given up half-way (recursion limit; 6b608e9) keeps signature None and shows `(...)`: `never_broken` is about "
+    "completed _handleFunctionDef runs",
     "html2stan / flatten_text (HTML of the signature -> text) are seen through their output only (C10); `str(signature)` raising is the "
     "parameter `strRaises` of `formatSignatureX`, exercised by the `fallback` stream",
 ]
@@ -861,9 +863,11 @@ OVERLOAD_SPELLINGS = [
 REAL_OVERLOAD = ("typing.overload", "typing_extensions.overload")
 
 
-def decorator_is_overload(module_src: str, in_class: bool, deco: str) -> bool:
-    """Python's own answer, independent of pydoctor: follow the import / def bindings of the module body
-    (then of the class body) and see whether the decorator expression names typing[_extensions].overload."""
+import functools
+
+
+@functools.lru_cache(maxsize=64)
+def _bindings_of(module_src: str, in_class: bool) -> Dict[str, str]:
     tree = ast.parse(module_src)
 
     def bindings(body, env):
@@ -890,6 +894,13 @@ def decorator_is_overload(module_src: str, in_class: bool, deco: str) -> bool:
     if in_class:
         cls = [st for st in tree.body if isinstance(st, ast.ClassDef)][0]
         env = bindings([st for st in cls.body if not isinstance(st, ast.FunctionDef)], dict(env))
+    return env
+
+
+def decorator_is_overload(module_src: str, in_class: bool, deco: str) -> bool:
+    """Python's own answer, independent of pydoctor: follow the import / def bindings of the module body
+    (then of the class body) and see whether the decorator expression names typing[_extensions].overload."""
+    env = _bindings_of(module_src, in_class)
     head, _, rest = deco.partition(".")
     if head not in env:
         return False
@@ -1638,12 +1649,21 @@ def run_module_constants(ctx: Ctx, nrandom: int) -> None:
 # ------------------------------------------------------------------ run
 
 def run(ctx: Ctx) -> None:
+    import time as _time
     rng = ctx.rng
+    phases: Dict[str, float] = {}
+    ctx.extra["phase_seconds"] = phases
+
+    def timed(name: str, fn, *a) -> None:
+        t0 = _time.time()
+        fn(*a)
+        phases[name] = round(phases.get(name, 0.0) + _time.time() - t0, 1)
     # 0. deterministic corpus: the shapes of every seeded change, independent of the seed, first
-    run_corpus(ctx)
-    run_hunter_shapes(ctx)
-    run_operand_shapes(ctx)
-    run_fallback(ctx)
+    timed("corpus", run_corpus, ctx)
+    timed("hunter-shapes", run_hunter_shapes, ctx)
+    timed("operand-shapes", run_operand_shapes, ctx)
+    timed("fallback", run_fallback, ctx)
+    _t_gen = _time.time()
     set_env_from_source(MODULE_HEADER)
     nmax = 3 if ctx.quick else 4
     cases: List[Case] = []
@@ -1716,12 +1736,13 @@ def run(ctx: Ctx) -> None:
         cases.append(c)
         if not exprs:
             read_texts.append(c.params)
-    run_cases(ctx, cases)
-    run_read_stream(ctx, read_texts)
-    run_overloads(ctx, 330 if ctx.quick else 4400)
-    run_unstring(ctx, 2, 300 if ctx.quick else 40000)
-    run_decorators(ctx, 200 if ctx.quick else 6000)
-    run_module_constants(ctx, 150 if ctx.quick else 6000)
+    phases["generate-cases"] = round(_time.time() - _t_gen, 1)
+    timed("signature-streams", run_cases, ctx, cases)
+    timed("read-cpython", run_read_stream, ctx, read_texts)
+    timed("overloads", run_overloads, ctx, 330 if ctx.quick else 4400)
+    timed("unstring", run_unstring, ctx, 2, 300 if ctx.quick else 40000)
+    timed("decorators", run_decorators, ctx, 200 if ctx.quick else 6000)
+    timed("module-constants", run_module_constants, ctx, 150 if ctx.quick else 6000)
 
 
 # ------------------------------------------------------------------ replay
